@@ -1428,6 +1428,13 @@ class TaskScenario(ScenarioData):
             if resource:
                 primary_resources.append(resource)
 
+        # A resource that is named more than once (two allocate statements, a macro expanded
+        # twice) is still one team member: it is booked and counted against limits once
+        primary_resources = [r for i, r in enumerate(primary_resources) if not any(r is p for p in primary_resources[:i])]
+        alternative_resources = [
+            r for i, r in enumerate(alternative_resources) if not any(r is p for p in alternative_resources[:i])
+        ]
+
         # Determine which resources to try booking
         # Smart routing: pick the resource that can complete the task earliest
         # Only select once at the beginning of scheduling (when no effort done yet)
